@@ -45,6 +45,9 @@ STARTS = {
     "r=X": [{"op": "store", "pid": "r", "c": X}],
     "p=Y": [{"op": "store", "pid": "p", "c": Y}],
 }
+VAL_CALLS = [{"op": "store", "pid": "p", "c": X, "cks": "right"}, {"op": "store", "pid": "q", "c": X, "size": "right"},
+             {"op": "store", "pid": "p", "c": X, "cks": "right", "cks_algo": "md5", "size": "right"}, {"op": "store", "pid": "q", "c": X},
+             {"op": "store", "pid": None, "c": X}]
 BASE = {"cfg": {"algo": "SHA-256", "depth": 2, "width": 2}, "contents": [{"hex": "5858585858"}, {"hex": "5959"}], "docs": []}
 
 
@@ -162,6 +165,13 @@ def enumerate_cases(tier):
     for a, b in ((0, 1), (0, 2), (1, 1)):
         yield dict(BIG_BASE, start_name="empty", start=[], calls=[BIG_CALLS[a], BIG_CALLS[(b + 1) % 3 if a == b else b]], mode="enum",
                    max_preempt=1, source_reads=True, family="different-contents-one-instance")
+    # 'validated stores': first-time stores of the SAME content under different pids where the callers pass (correct) validation
+    # data - the branch of the data stage that runs only with a checksum / an expected size, next to another publisher
+    for sname in ("empty", "X-unreferenced"):
+        for a, b in ((0, 1), (0, 3), (2, 1), (2, 2), (0, 4)):
+            for first in (0, 1):
+                yield dict(BASE, start_name=sname, start=STARTS[sname], calls=[VAL_CALLS[a], VAL_CALLS[b]], mode="cd",
+                           max_preempt=2 if tier == "quick" else 3, firsts=[first], family="validated-stores")
     if tier == "thorough":
         # conflict-directed enumeration: every schedule with <=3 preemptions up to commutation of independent steps
         for sname in STARTS:
